@@ -9,6 +9,8 @@ import (
 	"go/token"
 	"os"
 	"path/filepath"
+	"reflect"
+	"sort"
 	"strconv"
 	"strings"
 )
@@ -36,21 +38,162 @@ type decFacts struct {
 	emptyWhenHwmEqOffset bool
 	closeStoresOffset    bool
 	oorSeeksConn         bool
+	firstOffsetConst     int64  // const FirstOffset
+	lastOffsetConst      int64  // const LastOffset
+	initResolve          string // the switch of (*reader).initialize that resolves / clamps the offset
+	initSeeksResolved    bool   // … followed by conn.Seek(<that offset>, SeekAbsolute)
+	runResetsAttempt     bool   // (*reader).run: `attempt = 0` and `offset = start` after a successful initialize
+	runErrcountInc       bool   // … `errcount++` is the last statement of readLoop's body
+	loopBranches         string // per error class of readLoop's switch: what the clause does (canonical words)
+	decoderText          string // (*messageSetReader).readMessage and everything it reaches in message_reader.go / read.go / discard.go (closure)
 }
 
-// decExtractor carries the file set that the renderer needs.
-type decExtractor struct{ fset *token.FileSet }
+// decExtractor carries the file set that the renderer needs and the names declared in the function being read.
+type decExtractor struct {
+	fset   *token.FileSet
+	recv   string          // receiver variable of the current function
+	locals map[string]bool // parameters, results and local variables of the current function
+	nz     *decNormaliser  // helpers introduced by refactorings (normalise.go)
+}
 
-// render prints a node with go/printer and normalises the white space (the files are parsed without comments).
+// enter records the receiver and the local names of fd: every rendering until the next enter is alpha-normalised
+// with respect to them, so that renaming a receiver, parameter or local variable does not change any fact.
+func (d *decExtractor) enter(fd *ast.FuncDecl) {
+	d.recv = decRecvIdent(fd)
+	d.locals = map[string]bool{}
+	add := func(fl *ast.FieldList) {
+		if fl == nil {
+			return
+		}
+		for _, f := range fl.List {
+			for _, n := range f.Names {
+				d.locals[n.Name] = true
+			}
+		}
+	}
+	add(fd.Type.Params)
+	add(fd.Type.Results)
+	ast.Inspect(fd.Body, func(n ast.Node) bool {
+		switch x := n.(type) {
+		case *ast.AssignStmt:
+			if x.Tok == token.DEFINE {
+				for _, l := range x.Lhs {
+					if id, ok := l.(*ast.Ident); ok {
+						d.locals[id.Name] = true
+					}
+				}
+			}
+		case *ast.ValueSpec:
+			for _, id := range x.Names {
+				d.locals[id.Name] = true
+			}
+		case *ast.RangeStmt:
+			if x.Tok == token.DEFINE {
+				for _, e := range []ast.Expr{x.Key, x.Value} {
+					if id, ok := e.(*ast.Ident); ok {
+						d.locals[id.Name] = true
+					}
+				}
+			}
+		case *ast.FuncLit:
+			add(x.Type.Params)
+			add(x.Type.Results)
+		}
+		return true
+	})
+	delete(d.locals, "_")
+	delete(d.locals, d.recv)
+}
+
+// render prints a node with go/printer, white space normalised (the files are parsed without comments), the receiver
+// written `$r` and the local names written `$1`, `$2`, … in order of first occurrence inside the node: two fragments
+// that differ only in the names of locals render alike.
 func (d *decExtractor) render(n ast.Node) string {
 	if n == nil {
 		return ""
 	}
+	type saved struct {
+		id   *ast.Ident
+		name string
+	}
+	var undo []saved
+	num := map[string]string{}
+	skip := map[*ast.Ident]bool{}
+	ast.Inspect(n, func(m ast.Node) bool {
+		switch x := m.(type) {
+		case *ast.SelectorExpr:
+			skip[x.Sel] = true
+		case *ast.KeyValueExpr:
+			if id, ok := x.Key.(*ast.Ident); ok {
+				skip[id] = true
+			}
+		case *ast.BranchStmt:
+			if x.Label != nil {
+				skip[x.Label] = true
+			}
+		case *ast.LabeledStmt:
+			skip[x.Label] = true
+		case *ast.Ident:
+			if skip[x] {
+				return true
+			}
+			switch {
+			case d.recv != "" && x.Name == d.recv:
+				undo = append(undo, saved{x, x.Name})
+				x.Name = "$r"
+			case d.locals[x.Name]:
+				c, ok := num[x.Name]
+				if !ok {
+					c = "$" + strconv.Itoa(len(num)+1)
+					num[x.Name] = c
+				}
+				undo = append(undo, saved{x, x.Name})
+				x.Name = c
+			}
+		}
+		return true
+	})
 	var buf bytes.Buffer
-	if err := printer.Fprint(&buf, d.fset, n); err != nil {
+	err := printer.Fprint(&buf, d.fset, n)
+	for _, u := range undo {
+		u.id.Name = u.name
+	}
+	if err != nil {
 		return "?"
 	}
 	return strings.Join(strings.Fields(buf.String()), " ")
+}
+
+// decLhsName is the source name of the variable a plain assignment statement assigns ("" otherwise).
+func decLhsName(s ast.Stmt) string {
+	if as, ok := s.(*ast.AssignStmt); ok && len(as.Lhs) == 1 {
+		return decName(as.Lhs[0])
+	}
+	return ""
+}
+
+// decAssignedName: for `if c { x.f = <name> + k }` the source name <name> ("" otherwise).
+func decAssignedName(s ast.Stmt) string {
+	is, ok := s.(*ast.IfStmt)
+	if !ok || len(is.Body.List) != 1 {
+		return ""
+	}
+	as, ok := is.Body.List[0].(*ast.AssignStmt)
+	if !ok || len(as.Rhs) != 1 {
+		return ""
+	}
+	if b, ok := as.Rhs[0].(*ast.BinaryExpr); ok {
+		return decName(b.X)
+	}
+	return ""
+}
+
+// decName is the source name of an identifier expression ("" otherwise).
+func decName(e ast.Expr) string {
+	if id, ok := e.(*ast.Ident); ok {
+		return id.Name
+	}
+	return ""
 }
 
 // decFunc finds the declaration of the function `name` with receiver type `recv` ("" for a plain function).
@@ -114,8 +257,13 @@ func decIntLit(e ast.Expr) (int64, bool) {
 	return v, true
 }
 
-// readWidths sums the widths of the calls <recv>.readInt8/16/32/64(...) found in the statements.
+// readWidths sums the widths of the calls <recv>.readInt8/16/32/64(...) found in the statements, including those made
+// by helper methods (normalise.go) called on <recv>.
 func (d *decExtractor) readWidths(recv string, stmts []ast.Stmt) int64 {
+	return d.readWidthsDepth(recv, stmts, 3)
+}
+
+func (d *decExtractor) readWidthsDepth(recv string, stmts []ast.Stmt, depth int) int64 {
 	widths := map[string]int64{"readInt8": 1, "readInt16": 2, "readInt32": 4, "readInt64": 8}
 	var sum int64
 	for _, s := range stmts {
@@ -130,6 +278,11 @@ func (d *decExtractor) readWidths(recv string, stmts []ast.Stmt) int64 {
 			}
 			if id, ok := sel.X.(*ast.Ident); ok && id.Name == recv {
 				sum += widths[sel.Sel.Name]
+				if d.nz != nil && depth > 0 {
+					if h := d.nz.helperOf(call); h != nil {
+						sum += d.readWidthsDepth(decRecvIdent(h), h.Body.List, depth-1)
+					}
+				}
 			}
 		})
 	}
@@ -237,11 +390,19 @@ func (d *decExtractor) plusLit(e ast.Expr, base string) int64 {
 //	conn.go           (*Conn).ReadBatchWith              empty message set when highWaterMark == offset
 func extractDecoder(repo, root string) error {
 	d := &decExtractor{fset: token.NewFileSet()}
+	alias := decAliases(repo)
 	parse := func(name string) (*ast.File, error) {
-		return parser.ParseFile(d.fset, filepath.Join(repo, name), nil, 0)
+		f, err := parser.ParseFile(d.fset, filepath.Join(repo, name), nil, 0)
+		if err == nil {
+			decApplyAliases(f, alias)
+		}
+		return f, err
 	}
+	nz := newDecNormaliserAliased(d.fset, repo, alias)
+	d.nz = nz
 	need := func(f *ast.File, file, recv, name string) (*ast.FuncDecl, error) {
 		if fd := decFunc(f, recv, name); fd != nil {
+			nz.normalise(fd)
 			return fd, nil
 		}
 		return nil, fmt.Errorf("untranslated: %s: func (%s) %s not found", file, recv, name)
@@ -268,7 +429,6 @@ func extractDecoder(repo, root string) error {
 	d.header(readHeader, &facts)
 	d.skipLoop(msrReadMessage, &facts)
 	d.messageV2(readMessageV2, &facts)
-
 	// ---- batch.go
 	bf, err := parse("batch.go")
 	if err != nil {
@@ -288,8 +448,9 @@ func extractDecoder(repo, root string) error {
 	}
 	d.batchRead(batchReadMessage, &facts)
 	d.batchSkip(batchReadMessageExported, &facts)
+	d.enter(batchClose)
 	decInspect(batchClose.Body, func(n ast.Node) {
-		if as, ok := n.(*ast.AssignStmt); ok && d.render(as) == "conn.offset = batch.offset" {
+		if as, ok := n.(*ast.AssignStmt); ok && d.render(as) == "$1.offset = $r.offset" {
 			facts.closeStoresOffset = true
 		}
 	})
@@ -309,6 +470,11 @@ func extractDecoder(repo, root string) error {
 	}
 	d.readerRun(run, &facts)
 	d.readerRead(read, &facts)
+	initialize, err := need(rf, "reader.go", "reader", "initialize")
+	if err != nil {
+		return err
+	}
+	d.readerLoop(rf, run, initialize, &facts)
 
 	// ---- conn.go
 	cf, err := parse("conn.go")
@@ -319,15 +485,35 @@ func extractDecoder(repo, root string) error {
 	if err != nil {
 		return err
 	}
+	d.enter(readBatchWith)
 	decInspect(readBatchWith.Body, func(n ast.Node) {
+		// the branch may do more (e.g. skip the bytes of the response); what the model relies on is the empty reader
 		is, ok := n.(*ast.IfStmt)
-		if !ok || !d.plainIfElse(is, "highWaterMark == offset", "msgs = &messageSetReader{empty: true}") {
+		if !ok || is.Init != nil || d.render(is.Cond) != "$1 == $2" {
+			return
+		}
+		has := false
+		for _, s := range is.Body.List {
+			if d.render(s) == "$1 = &messageSetReader{empty: true}" {
+				has = true
+			}
+		}
+		if !has {
 			return
 		}
 		if blk, ok := is.Else.(*ast.BlockStmt); ok && d.containsCall(blk, "newMessageSetReader") != nil {
 			facts.emptyWhenHwmEqOffset = true
 		}
 	})
+
+	// the text the statement-level models follow: everything (*messageSetReader).readMessage reaches in
+	// message_reader.go, read.go and discard.go (parsed a second time by the normaliser: rendering rewrites the trees)
+	facts.decoderText = "?"
+	for _, c := range nz.all["readMessage"] {
+		if decRecvType(c) == "messageSetReader" {
+			facts.decoderText = d.closure(c, map[string]bool{"message_reader.go": true, "read.go": true, "discard.go": true})
+		}
+	}
 
 	return os.WriteFile(filepath.Join(root, "lean/KafkaVerif/Gen/DecoderFacts.lean"), []byte(facts.lean()), 0o644)
 }
@@ -347,11 +533,12 @@ func decRecvIdent(fd *ast.FuncDecl) string {
 
 // header: (*messageSetReader).readHeader.
 func (d *decExtractor) header(fd *ast.FuncDecl, facts *decFacts) {
+	d.enter(fd)
 	recv := decRecvIdent(fd)
 	var sw *ast.SwitchStmt
 	at := -1
 	for i, s := range fd.Body.List {
-		if x, ok := s.(*ast.SwitchStmt); ok && x.Init == nil && d.render(x.Tag) == "r.header.magic" {
+		if x, ok := s.(*ast.SwitchStmt); ok && x.Init == nil && d.render(x.Tag) == "$r.header.magic" {
 			sw, at = x, i
 			break
 		}
@@ -373,7 +560,7 @@ func (d *decExtractor) header(fd *ast.FuncDecl, facts *decFacts) {
 		if cc == nil {
 			return 0, false
 		}
-		as := d.assignsTo(cc.Body, "r.lengthRemain", true)
+		as := d.assignsTo(cc.Body, "$r.lengthRemain", true)
 		if len(as) != 1 || as[0].Tok != token.ASSIGN {
 			return 0, false
 		}
@@ -390,8 +577,8 @@ func (d *decExtractor) header(fd *ast.FuncDecl, facts *decFacts) {
 		return
 	}
 	// r.lengthRemain = int(r.header.length) - <literal>
-	if as := d.assignsTo(cc.Body, "r.lengthRemain", true); len(as) == 1 && as[0].Tok == token.ASSIGN {
-		if b, ok := as[0].Rhs[0].(*ast.BinaryExpr); ok && b.Op == token.SUB && d.render(b.X) == "int(r.header.length)" {
+	if as := d.assignsTo(cc.Body, "$r.lengthRemain", true); len(as) == 1 && as[0].Tok == token.ASSIGN {
+		if b, ok := as[0].Rhs[0].(*ast.BinaryExpr); ok && b.Op == token.SUB && d.render(b.X) == "int($r.header.length)" {
 			if k, ok := decIntLit(b.Y); ok && k >= 0 {
 				facts.v2PayloadOffset = k
 			}
@@ -400,13 +587,13 @@ func (d *decExtractor) header(fd *ast.FuncDecl, facts *decFacts) {
 	// r.count = ...; later: if r.count == 0 { r.batchEnd = first + int64(lastOffsetDelta) + 1 }
 	countAt := -1
 	for i, s := range cc.Body {
-		if len(d.assignsTo([]ast.Stmt{s}, "r.count", true)) > 0 {
+		if len(d.assignsTo([]ast.Stmt{s}, "$r.count", true)) > 0 {
 			countAt = i
 		}
 	}
 	if countAt >= 0 {
 		for _, s := range cc.Body[countAt+1:] {
-			if d.plainIf(s, "r.count == 0", "r.batchEnd = r.header.firstOffset + int64(r.header.v2.lastOffsetDelta) + 1") {
+			if d.plainIf(s, "$r.count == 0", "$r.batchEnd = $r.header.firstOffset + int64($r.header.v2.lastOffsetDelta) + 1") {
 				facts.batchEndOnEmpty = true
 			}
 		}
@@ -415,6 +602,7 @@ func (d *decExtractor) header(fd *ast.FuncDecl, facts *decFacts) {
 
 // skipLoop: (*messageSetReader).readMessage.
 func (d *decExtractor) skipLoop(fd *ast.FuncDecl, facts *decFacts) {
+	d.enter(fd)
 	list := fd.Body.List
 	for i, s := range list {
 		loop, ok := s.(*ast.ForStmt)
@@ -424,7 +612,7 @@ func (d *decExtractor) skipLoop(fd *ast.FuncDecl, facts *decFacts) {
 		// the dispatch on the magic byte comes after the loop
 		dispatched := false
 		for _, t := range list[i+1:] {
-			if sw, ok := t.(*ast.SwitchStmt); ok && d.render(sw.Tag) == "r.header.magic" {
+			if sw, ok := t.(*ast.SwitchStmt); ok && d.render(sw.Tag) == "$r.header.magic" {
 				dispatched = true
 			}
 		}
@@ -432,16 +620,16 @@ func (d *decExtractor) skipLoop(fd *ast.FuncDecl, facts *decFacts) {
 		for j, t := range loop.Body.List {
 			switch x := t.(type) {
 			case *ast.IfStmt:
-				if x.Init != nil && headerAt < 0 && d.containsCall(x.Init, "r.readHeader") != nil {
+				if x.Init != nil && headerAt < 0 && d.containsCall(x.Init, "$r.readHeader") != nil {
 					headerAt = j
 				}
-				if breakAt < 0 && x.Init == nil && x.Else == nil && d.render(x.Cond) == "r.header.magic != 2 || r.count != 0" && len(x.Body.List) == 1 {
+				if breakAt < 0 && x.Init == nil && x.Else == nil && d.render(x.Cond) == "$r.header.magic != 2 || $r.count != 0" && len(x.Body.List) == 1 {
 					if br, ok := x.Body.List[0].(*ast.BranchStmt); ok && br.Tok == token.BREAK && br.Label == nil {
 						breakAt = j
 					}
 				}
 			case *ast.AssignStmt:
-				if headerAt < 0 && d.containsCall(x, "r.readHeader") != nil {
+				if headerAt < 0 && d.containsCall(x, "$r.readHeader") != nil {
 					headerAt = j
 				}
 			}
@@ -454,21 +642,31 @@ func (d *decExtractor) skipLoop(fd *ast.FuncDecl, facts *decFacts) {
 
 // messageV2: (*messageSetReader).readMessageV2.
 func (d *decExtractor) messageV2(fd *ast.FuncDecl, facts *decFacts) {
+	d.enter(fd)
 	// batchRemain := int(r.header.length - <literal>)
-	if as := d.assignsTo(fd.Body.List, "batchRemain", true); len(as) == 1 {
-		if call, ok := as[0].Rhs[0].(*ast.CallExpr); ok && d.render(call.Fun) == "int" && len(call.Args) == 1 {
-			if b, ok := call.Args[0].(*ast.BinaryExpr); ok && b.Op == token.SUB && d.render(b.X) == "r.header.length" {
+	// (the local may have any name: the definition is recognised by its right-hand side)
+	var remains []int64
+	decInspect(fd.Body, func(n ast.Node) {
+		as, ok := n.(*ast.AssignStmt)
+		if !ok || as.Tok != token.DEFINE || len(as.Lhs) != 1 || len(as.Rhs) != 1 {
+			return
+		}
+		if call, ok := as.Rhs[0].(*ast.CallExpr); ok && d.render(call.Fun) == "int" && len(call.Args) == 1 {
+			if b, ok := call.Args[0].(*ast.BinaryExpr); ok && b.Op == token.SUB && d.render(b.X) == "$r.header.length" {
 				if k, ok := decIntLit(b.Y); ok && k >= 0 {
-					facts.v2BatchRemainOffset = k
+					remains = append(remains, k)
 				}
 			}
 		}
+	})
+	if len(remains) == 1 {
+		facts.v2BatchRemainOffset = remains[0]
 	}
 	// lastOffset = ...; if r.count == 1 { r.batchEnd = lastOffset + 1 }; r.markRead()
 	list := fd.Body.List
 	lastAt := -1
 	for i, s := range list {
-		if d.render(s) == "lastOffset = r.header.firstOffset + int64(r.header.v2.lastOffsetDelta)" {
+		if d.render(s) == "$1 = $r.header.firstOffset + int64($r.header.v2.lastOffsetDelta)" {
 			lastAt = i
 		}
 	}
@@ -476,12 +674,12 @@ func (d *decExtractor) messageV2(fd *ast.FuncDecl, facts *decFacts) {
 		return
 	}
 	for i := lastAt + 1; i < len(list); i++ {
-		if d.containsCall(list[i], "r.markRead") != nil {
+		if d.containsCall(list[i], "$r.markRead") != nil {
 			return // the record is accounted for: too late to look at r.count == 1
 		}
-		if d.plainIf(list[i], "r.count == 1", "r.batchEnd = lastOffset + 1") {
+		if d.plainIf(list[i], "$r.count == 1", "$r.batchEnd = $1 + 1") && decAssignedName(list[i]) == decLhsName(list[lastAt]) {
 			for _, t := range list[i+1:] {
-				if es, ok := t.(*ast.ExprStmt); ok && d.render(es.X) == "r.markRead()" {
+				if es, ok := t.(*ast.ExprStmt); ok && d.render(es.X) == "$r.markRead()" {
 					facts.batchEndOnLast = true
 				}
 			}
@@ -492,6 +690,7 @@ func (d *decExtractor) messageV2(fd *ast.FuncDecl, facts *decFacts) {
 
 // batchRead: (*Batch).readMessage.
 func (d *decExtractor) batchRead(fd *ast.FuncDecl, facts *decFacts) {
+	d.enter(fd)
 	list := fd.Body.List
 
 	// switch { case err == nil: batch.offset = offset + k ... }
@@ -499,9 +698,9 @@ func (d *decExtractor) batchRead(fd *ast.FuncDecl, facts *decFacts) {
 	for i, s := range list {
 		if sw, ok := s.(*ast.SwitchStmt); ok && sw.Tag == nil && sw.Init == nil {
 			switchAt = i
-			if cc := d.caseOfCond(sw, "err == nil"); cc != nil {
-				if as := d.assignsTo(cc.Body, "batch.offset", true); len(as) == 1 && as[0].Tok == token.ASSIGN && len(d.assignsTo(cc.Body, "batch.offset", false)) == 1 {
-					facts.nextOffsetPlus = d.plusLit(as[0].Rhs[0], "offset")
+			if cc := d.caseOfCond(sw, "$1 == nil"); cc != nil {
+				if as := d.assignsTo(cc.Body, "$r.offset", true); len(as) == 1 && as[0].Tok == token.ASSIGN && len(d.assignsTo(cc.Body, "$r.offset", false)) == 1 {
+					facts.nextOffsetPlus = d.plusLit(as[0].Rhs[0], "$1")
 				}
 			}
 		}
@@ -514,8 +713,7 @@ func (d *decExtractor) batchRead(fd *ast.FuncDecl, facts *decFacts) {
 				break
 			}
 			is, ok := s.(*ast.IfStmt)
-			if ok && is.Else == nil && d.render(is.Init) == "end := batch.msgs.batchEnd" && d.render(is.Cond) == "end > batch.offset" &&
-				len(is.Body.List) == 1 && d.render(is.Body.List[0]) == "batch.offset = end" {
+			if ok && is.Else == nil && d.render(is) == "if $1 := $r.msgs.batchEnd; $1 > $r.offset { $r.offset = $1 }" {
 				facts.batchEndApplied = true
 			}
 		}
@@ -529,7 +727,7 @@ func (d *decExtractor) batchRead(fd *ast.FuncDecl, facts *decFacts) {
 			return
 		}
 		for _, s := range is.Body.List {
-			if d.render(s) == "batch.offset = batch.lastOffset + 1" {
+			if d.render(s) == "$r.offset = $r.lastOffset + 1" {
 				g := d.render(is.Cond)
 				if is.Init != nil {
 					g = d.render(is.Init) + "; " + g
@@ -545,10 +743,11 @@ func (d *decExtractor) batchRead(fd *ast.FuncDecl, facts *decFacts) {
 
 // batchSkip: (*Batch).ReadMessage.
 func (d *decExtractor) batchSkip(fd *ast.FuncDecl, facts *decFacts) {
+	d.enter(fd)
 	var conds []string
 	decInspect(fd.Body, func(n ast.Node) {
 		loop, ok := n.(*ast.ForStmt)
-		if !ok || d.containsCall(loop.Body, "batch.readMessage") == nil {
+		if !ok || d.containsCall(loop.Body, "$r.readMessage") == nil {
 			return
 		}
 		c := d.render(loop.Cond)
@@ -564,9 +763,10 @@ func (d *decExtractor) batchSkip(fd *ast.FuncDecl, facts *decFacts) {
 
 // readerRun: (*reader).run, case errors.Is(err, OffsetOutOfRange) / case offset < first.
 func (d *decExtractor) readerRun(fd *ast.FuncDecl, facts *decFacts) {
+	d.enter(fd)
 	decInspect(fd.Body, func(n ast.Node) {
 		outer, ok := n.(*ast.CaseClause)
-		if !ok || len(outer.List) != 1 || d.render(outer.List[0]) != "errors.Is(err, OffsetOutOfRange)" {
+		if !ok || len(outer.List) != 1 || d.render(outer.List[0]) != "errors.Is($1, OffsetOutOfRange)" {
 			return
 		}
 		for _, s := range outer.Body {
@@ -574,22 +774,25 @@ func (d *decExtractor) readerRun(fd *ast.FuncDecl, facts *decFacts) {
 			if !ok || sw.Tag != nil {
 				continue
 			}
-			cc := d.caseOfCond(sw, "offset < first")
+			// the first clause of the shape `<local> < <local>`: position below the first offset
+			cc := d.caseOfCond(sw, "$1 < $2")
 			if cc == nil {
 				continue
 			}
+			cmp := cc.List[0].(*ast.BinaryExpr)
+			offName, firstName := decName(cmp.X), decName(cmp.Y)
 			moved := false
 			for _, t := range cc.Body {
 				switch x := t.(type) {
 				case *ast.BranchStmt, *ast.ReturnStmt:
 					return // what follows is not executed
 				case *ast.AssignStmt:
-					if r := d.render(x); r == "offset, errcount = first, 0" || r == "offset = first" {
+					if r := d.render(x); (r == "$1, $2 = $3, 0" || r == "$1 = $2") && decName(x.Lhs[0]) == offName && decName(x.Rhs[0]) == firstName {
 						moved = true
 						continue
 					}
 				}
-				if call := d.containsCall(t, "conn.Seek"); call != nil && moved && len(call.Args) == 2 && d.render(call.Args[0]) == "offset" {
+				if call := d.containsCall(t, "$1.Seek"); call != nil && moved && len(call.Args) == 2 && decName(call.Args[0]) == offName {
 					facts.oorSeeksConn = true
 				}
 			}
@@ -599,10 +802,9 @@ func (d *decExtractor) readerRun(fd *ast.FuncDecl, facts *decFacts) {
 
 // readerRead: (*reader).read, `offset = msg.Offset + k` in the loop, after batch.ReadMessage().
 func (d *decExtractor) readerRead(fd *ast.FuncDecl, facts *decFacts) {
-	all := d.assignsTo(fd.Body.List, "offset", true)
-	if len(all) != 1 || all[0].Tok != token.ASSIGN {
-		return
-	}
+	d.enter(fd)
+	// the statement `<local> = <msg>.Offset [+ k]` of the loop, after <batch>.ReadMessage(); the local it assigns must
+	// not be assigned anywhere else
 	for _, s := range fd.Body.List {
 		loop, ok := s.(*ast.ForStmt)
 		if !ok {
@@ -610,14 +812,505 @@ func (d *decExtractor) readerRead(fd *ast.FuncDecl, facts *decFacts) {
 		}
 		fetched := false
 		for _, t := range loop.Body.List {
-			if d.containsCall(t, "batch.ReadMessage") != nil {
+			if d.containsCall(t, "$1.ReadMessage") != nil {
 				fetched = true
 			}
-			if t == ast.Stmt(all[0]) && fetched {
-				facts.readerNextOffsetPlus = d.plusLit(all[0].Rhs[0], "msg.Offset")
+			as, ok := t.(*ast.AssignStmt)
+			if !ok || !fetched || as.Tok != token.ASSIGN || len(as.Lhs) != 1 || len(as.Rhs) != 1 || decName(as.Lhs[0]) == "" {
+				continue
+			}
+			if k := d.plusLit(as.Rhs[0], "$1.Offset"); k != decNotShaped {
+				n := 0
+				decInspect(fd.Body, func(m ast.Node) {
+					if x, ok := m.(*ast.AssignStmt); ok {
+						for _, l := range x.Lhs {
+							if decName(l) == decName(as.Lhs[0]) && x.Tok == token.ASSIGN {
+								n++
+							}
+						}
+					}
+				})
+				if n == 1 {
+					facts.readerNextOffsetPlus = k
+				}
 			}
 		}
 	}
+}
+
+// readerLoop: the sentinels, the resolution of the start offset in initialize, and the bookkeeping of run's two loops.
+func (d *decExtractor) readerLoop(f *ast.File, run, initialize *ast.FuncDecl, facts *decFacts) {
+	facts.firstOffsetConst, facts.lastOffsetConst = decNotShaped, decNotShaped
+	for _, decl := range f.Decls {
+		gd, ok := decl.(*ast.GenDecl)
+		if !ok || gd.Tok != token.CONST {
+			continue
+		}
+		for _, sp := range gd.Specs {
+			vs, ok := sp.(*ast.ValueSpec)
+			if !ok {
+				continue
+			}
+			for i, n := range vs.Names {
+				if i >= len(vs.Values) {
+					continue
+				}
+				v := vs.Values[i]
+				neg := false
+				if u, ok := v.(*ast.UnaryExpr); ok && u.Op == token.SUB {
+					neg, v = true, u.X
+				}
+				k, ok := decIntLit(v)
+				if !ok {
+					continue
+				}
+				if neg {
+					k = -k
+				}
+				switch n.Name {
+				case "FirstOffset":
+					facts.firstOffsetConst = k
+				case "LastOffset":
+					facts.lastOffsetConst = k
+				}
+			}
+		}
+	}
+
+	// initialize: switch { case o == FirstOffset: o = first … }; then conn.Seek(o, SeekAbsolute)
+	d.enter(initialize)
+	facts.initResolve = "?"
+	decInspect(initialize.Body, func(n ast.Node) {
+		blk, ok := n.(*ast.BlockStmt)
+		if !ok {
+			return
+		}
+		for i, s := range blk.List {
+			sw, ok := s.(*ast.SwitchStmt)
+			if !ok || sw.Tag != nil || sw.Init != nil || len(sw.Body.List) == 0 {
+				continue
+			}
+			cc, ok := sw.Body.List[0].(*ast.CaseClause)
+			if !ok || len(cc.List) != 1 {
+				continue
+			}
+			cmp, ok := cc.List[0].(*ast.BinaryExpr)
+			if !ok || decName(cmp.Y) != "FirstOffset" {
+				continue
+			}
+			facts.initResolve = d.render(sw)
+			for _, t := range blk.List[i+1:] {
+				if call := d.containsCall(t, "$1.Seek"); call != nil && len(call.Args) == 2 &&
+					decName(call.Args[0]) == decName(cmp.X) && d.render(call.Args[1]) == "SeekAbsolute" {
+					facts.initSeeksResolved = true
+				}
+			}
+		}
+	})
+
+	// run: after `conn, start, err := r.initialize(…)` and its error branch: attempt = 0; offset = start
+	d.enter(run)
+	var outer *ast.ForStmt
+	for _, s := range run.Body.List {
+		if fs, ok := s.(*ast.ForStmt); ok {
+			outer = fs
+		}
+	}
+	if outer == nil {
+		return
+	}
+	startName, offName, attemptName := "", decParamName(run, 1), ""
+	if as, ok := outer.Init.(*ast.AssignStmt); ok && len(as.Lhs) == 1 {
+		attemptName = decName(as.Lhs[0])
+	}
+	reset, fromStart := false, false
+	var readLoop *ast.ForStmt
+	for _, s := range outer.Body.List {
+		switch x := s.(type) {
+		case *ast.AssignStmt:
+			if call := d.containsCall(x, "$r.initialize"); call != nil && len(x.Lhs) == 3 {
+				startName = decName(x.Lhs[1])
+			}
+			if x.Tok == token.ASSIGN && len(x.Lhs) == 1 && len(x.Rhs) == 1 {
+				if decName(x.Lhs[0]) == attemptName && attemptName != "" {
+					if k, ok := decIntLit(x.Rhs[0]); ok && k == 0 {
+						reset = true
+					}
+				}
+				if decName(x.Lhs[0]) == offName && offName != "" && decName(x.Rhs[0]) == startName && startName != "" {
+					fromStart = true
+				}
+			}
+		case *ast.LabeledStmt:
+			if fs, ok := x.Stmt.(*ast.ForStmt); ok {
+				readLoop = fs
+			}
+		}
+	}
+	facts.runResetsAttempt = reset && fromStart
+	if readLoop == nil || len(readLoop.Body.List) == 0 {
+		return
+	}
+	if inc, ok := readLoop.Body.List[len(readLoop.Body.List)-1].(*ast.IncDecStmt); ok && inc.Tok == token.INC {
+		facts.runErrcountInc = true
+		errcountName := decName(inc.X)
+		// the switch over the error classes: for each clause, in order, the error it names and what it does
+		var words []string
+		for _, s := range readLoop.Body.List {
+			sw, ok := s.(*ast.SwitchStmt)
+			if !ok || sw.Tag != nil {
+				continue
+			}
+			for _, c := range sw.Body.List {
+				cc := c.(*ast.CaseClause)
+				name := "default"
+				if len(cc.List) == 1 {
+					name = d.render(cc.List[0])
+				}
+				var acts []string
+				for _, t := range cc.Body {
+					switch x := t.(type) {
+					case *ast.AssignStmt:
+						if len(x.Lhs) == 1 && decName(x.Lhs[0]) == errcountName {
+							acts = append(acts, "errcount="+d.render(x.Rhs[0]))
+						}
+					case *ast.BranchStmt:
+						w := x.Tok.String()
+						if x.Label != nil {
+							w += "-loop"
+						}
+						acts = append(acts, w)
+					case *ast.ReturnStmt:
+						acts = append(acts, "return")
+					case *ast.ExprStmt:
+						switch d.render(x.X) {
+						case "$1.Close()":
+							acts = append(acts, "close")
+						case "$r.sendError($1, $2)":
+							acts = append(acts, "sendError")
+						}
+					}
+				}
+				words = append(words, name+" -> "+strings.Join(acts, ","))
+			}
+		}
+		// the clauses name pairwise different errors (and `== nil`): their order is immaterial, `default` stays last
+		var named, deflt []string
+		for _, w := range words {
+			if strings.HasPrefix(w, "default ->") {
+				deflt = append(deflt, w)
+			} else {
+				named = append(named, w)
+			}
+		}
+		sort.Strings(named)
+		facts.loopBranches = strings.Join(append(named, deflt...), " | ")
+	}
+}
+
+// skeleton renders the body of a function with what the statement-level model does not follow removed:
+// `if <recv>.debug { … }` statements, value-less `var` declarations and the error plumbing
+// (`if err = f(); err != nil { return }` becomes `must(f())`).  Everything else — loop conditions, the order of the
+// calls, assignments, continue / return — is kept, alpha-normalised.
+func (d *decExtractor) skeleton(fd *ast.FuncDecl) string { return d.skeletonWith(fd, nil) }
+
+func (d *decExtractor) skeletonWith(fd *ast.FuncDecl, before func(*ast.FuncDecl)) string {
+	d.enter(fd)
+	var strip func(l []ast.Stmt) []ast.Stmt
+	strip = func(l []ast.Stmt) []ast.Stmt {
+		var out []ast.Stmt
+		for _, s := range l {
+			// `var x T` without a value: no behaviour, and where it stands is a matter of taste
+			if ds, ok := s.(*ast.DeclStmt); ok {
+				if gd, ok := ds.Decl.(*ast.GenDecl); ok && gd.Tok == token.VAR {
+					bare := true
+					for _, sp := range gd.Specs {
+						if vs, ok := sp.(*ast.ValueSpec); !ok || len(vs.Values) != 0 {
+							bare = false
+						}
+					}
+					if bare {
+						continue
+					}
+				}
+			}
+			if is, ok := s.(*ast.IfStmt); ok && is.Else == nil {
+				if is.Init == nil && d.render(is.Cond) == "$r.debug" {
+					continue
+				}
+				// if err = f(); err != nil { return }
+				if as, ok := is.Init.(*ast.AssignStmt); ok && len(is.Body.List) == 1 && len(as.Rhs) == 1 {
+					if ret, ok := is.Body.List[0].(*ast.ReturnStmt); ok && len(ret.Results) == 0 {
+						if cond, ok := is.Cond.(*ast.BinaryExpr); ok && cond.Op == token.NEQ && decName(cond.Y) == "nil" &&
+							decName(cond.X) != "" && decName(as.Lhs[len(as.Lhs)-1]) == decName(cond.X) {
+							call := &ast.CallExpr{Fun: ast.NewIdent("must"), Args: []ast.Expr{as.Rhs[0]}}
+							if len(as.Lhs) == 1 {
+								out = append(out, &ast.ExprStmt{X: call})
+							} else {
+								out = append(out, &ast.AssignStmt{Lhs: as.Lhs[:len(as.Lhs)-1], Tok: token.ASSIGN, Rhs: []ast.Expr{call}})
+							}
+							continue
+						}
+					}
+				}
+			}
+			out = append(out, s)
+		}
+		return out
+	}
+	decRewriteLists(fd.Body, strip)
+	// N6: `must(h(args))` where h is a helper unknown to the model whose body, with the same plumbing removed, is
+	// straight-line and ends in `return <e>` / `return nil` / `return`: the body takes the place of the call
+	// (an extracted run of error-checked calls)
+	if d.nz != nil {
+		for round := 0; round < 3; round++ {
+			changed := false
+			decRewriteLists(fd.Body, func(l []ast.Stmt) []ast.Stmt {
+				var out []ast.Stmt
+				for _, s := range l {
+					if es, ok := s.(*ast.ExprStmt); ok {
+						if m, ok := es.X.(*ast.CallExpr); ok && decName(m.Fun) == "must" && len(m.Args) == 1 {
+							if call, ok := m.Args[0].(*ast.CallExpr); ok {
+								if h := d.nz.helperOf(call); h != nil {
+									if bind := d.nz.binding(h, call); bind != nil {
+										if body := d.nz.cloneStmts(h.Body.List); body != nil {
+											holder := &ast.BlockStmt{List: body}
+											saveRecv, saveLocals := d.recv, d.locals
+											d.enter(h)
+											holder.List = strip(holder.List)
+											d.recv, d.locals = saveRecv, saveLocals
+											n := len(holder.List)
+											ok := n > 0
+											for i, t := range holder.List {
+												switch x := t.(type) {
+												case *ast.ReturnStmt:
+													if i != n-1 || len(x.Results) > 1 {
+														ok = false
+													}
+												case *ast.ExprStmt, *ast.AssignStmt, *ast.IncDecStmt:
+												default:
+													ok = false
+												}
+											}
+											if ok {
+												if _, isRet := holder.List[n-1].(*ast.ReturnStmt); !isRet {
+													ok = false
+												}
+											}
+											if ok {
+												d.nz.subst(holder, bind)
+												ret := holder.List[n-1].(*ast.ReturnStmt)
+												out = append(out, holder.List[:n-1]...)
+												if len(ret.Results) == 1 && decName(ret.Results[0]) != "nil" && decName(ret.Results[0]) != decLastResultName(h) {
+													out = append(out, &ast.ExprStmt{X: &ast.CallExpr{Fun: ast.NewIdent("must"), Args: []ast.Expr{ret.Results[0]}}})
+												}
+												changed = true
+												continue
+											}
+										}
+									}
+								}
+							}
+						}
+					}
+					out = append(out, s)
+				}
+				return out
+			})
+			if !changed {
+				break
+			}
+		}
+	}
+	if before != nil {
+		before(fd)
+	}
+	decClearPos(reflect.ValueOf(fd.Body))
+	// N11: a run of adjacent plain assignments `x = e` (no calls, different targets, no target read by another member of
+	// the run) is written in a fixed order: swapping independent assignments changes nothing
+	decRewriteLists(fd.Body, func(l []ast.Stmt) []ast.Stmt {
+		plain := func(st ast.Stmt) (lhs, rhs string, ok bool) {
+			as, isAs := st.(*ast.AssignStmt)
+			if !isAs || as.Tok != token.ASSIGN || len(as.Lhs) != 1 || len(as.Rhs) != 1 {
+				return "", "", false
+			}
+			calls := false
+			ast.Inspect(as.Rhs[0], func(n ast.Node) bool {
+				if _, c := n.(*ast.CallExpr); c {
+					calls = true
+				}
+				return true
+			})
+			ast.Inspect(as.Lhs[0], func(n ast.Node) bool {
+				switch n.(type) {
+				case *ast.CallExpr, *ast.IndexExpr, *ast.StarExpr:
+					calls = true
+				}
+				return true
+			})
+			if calls {
+				return "", "", false
+			}
+			nzp := &decNormaliser{fset: d.fset}
+			return nzp.print(as.Lhs[0]), nzp.print(as.Rhs[0]), true
+		}
+		for i := 0; i < len(l); {
+			j := i
+			var lhss, rhss []string
+			for j < len(l) {
+				lh, rh, ok := plain(l[j])
+				if !ok {
+					break
+				}
+				indep := true
+				for k := range lhss {
+					if lhss[k] == lh || strings.Contains(rh, lhss[k]) || strings.Contains(rhss[k], lh) || strings.Contains(lh, lhss[k]) || strings.Contains(lhss[k], lh) {
+						indep = false
+					}
+				}
+				if !indep {
+					break
+				}
+				lhss, rhss = append(lhss, lh), append(rhss, rh)
+				j++
+			}
+			if j-i >= 2 {
+				run := l[i:j]
+				sort.SliceStable(run, func(a, b int) bool {
+					la, _, _ := plain(run[a])
+					lb, _, _ := plain(run[b])
+					return la < lb
+				})
+			}
+			if j == i {
+				j = i + 1
+			}
+			i = j
+		}
+		return l
+	})
+	return d.render(fd.Body)
+}
+
+// decLastResultName is the name of the last (error) result of a function ("" if unnamed).
+func decLastResultName(fd *ast.FuncDecl) string {
+	if fd.Type.Results == nil || len(fd.Type.Results.List) == 0 {
+		return ""
+	}
+	f := fd.Type.Results.List[len(fd.Type.Results.List)-1]
+	if len(f.Names) == 0 {
+		return ""
+	}
+	return f.Names[len(f.Names)-1].Name
+}
+
+// decRecvType is the receiver type name of a method ("" for a function).
+func decRecvType(fd *ast.FuncDecl) string {
+	if fd.Recv == nil || len(fd.Recv.List) != 1 {
+		return ""
+	}
+	t := fd.Recv.List[0].Type
+	if s, ok := t.(*ast.StarExpr); ok {
+		t = s.X
+	}
+	if id, ok := t.(*ast.Ident); ok {
+		return id.Name
+	}
+	return ""
+}
+
+// closure renders a function and, after it, every function of the given files it reaches, each once.  The names of
+// those functions are treated like the names of locals: in the text they are `$f1`, `$f2`, … in order of first
+// occurrence, so that renaming a function or method (and all its call sites) changes nothing, while a change in any of
+// the bodies does.  `log` calls are left alone (debug output).
+func (d *decExtractor) closure(root *ast.FuncDecl, files map[string]bool) string {
+	nz := d.nz
+	id := map[*ast.FuncDecl]int{}
+	var order []*ast.FuncDecl
+	resolve := func(cur *ast.FuncDecl, call *ast.CallExpr) *ast.FuncDecl {
+		var cands []*ast.FuncDecl
+		switch f := call.Fun.(type) {
+		case *ast.Ident:
+			for _, c := range nz.all[f.Name] {
+				if c.Recv == nil {
+					cands = append(cands, c)
+				}
+			}
+		case *ast.SelectorExpr:
+			var meths []*ast.FuncDecl
+			for _, c := range nz.all[f.Sel.Name] {
+				if c.Recv != nil {
+					meths = append(meths, c)
+				}
+			}
+			if x, ok := f.X.(*ast.Ident); ok && x.Name == decRecvIdent(cur) && decRecvType(cur) != "" {
+				for _, c := range meths {
+					if decRecvType(c) == decRecvType(cur) {
+						cands = append(cands, c)
+					}
+				}
+			} else if len(meths) == 1 {
+				cands = meths
+			}
+		}
+		if len(cands) != 1 || cands[0].Name.Name == "log" || cands[0] == root {
+			return nil
+		}
+		if !files[filepath.Base(d.fset.Position(cands[0].Pos()).Filename)] {
+			return nil
+		}
+		return cands[0]
+	}
+	rename := func(cur *ast.FuncDecl) {
+		ast.Inspect(cur.Body, func(n ast.Node) bool {
+			call, ok := n.(*ast.CallExpr)
+			if !ok {
+				return true
+			}
+			t := resolve(cur, call)
+			if t == nil {
+				return true
+			}
+			k, seen := id[t]
+			if !seen {
+				k = len(order) + 1
+				id[t] = k
+				order = append(order, t)
+			}
+			name := "$f" + strconv.Itoa(k)
+			switch f := call.Fun.(type) {
+			case *ast.Ident:
+				call.Fun = ast.NewIdent(name)
+			case *ast.SelectorExpr:
+				call.Fun = &ast.SelectorExpr{X: f.X, Sel: ast.NewIdent(name)}
+			}
+			return true
+		})
+	}
+	// positions are needed by resolve (file of a declaration): take them before the skeleton clears them
+	one := func(fd *ast.FuncDecl) string {
+		nz.normalise(fd)
+		return d.skeletonWith(fd, rename)
+	}
+	parts := []string{root.Name.Name + " " + one(root)}
+	for i := 0; i < len(order) && i < 80; i++ {
+		parts = append(parts, "$f"+strconv.Itoa(i+1)+" "+one(order[i]))
+	}
+	return strings.Join(parts, " ;; ")
+}
+
+// decParamName is the name of the i-th parameter of a function ("" if there is none).
+func decParamName(fd *ast.FuncDecl, i int) string {
+	k := 0
+	for _, f := range fd.Type.Params.List {
+		for _, n := range f.Names {
+			if k == i {
+				return n.Name
+			}
+			k++
+		}
+	}
+	return ""
 }
 
 func decLeanInt(v int64) string {
@@ -662,6 +1355,8 @@ func (f *decFacts) lean() string {
 		"skipEmptyLoop : Bool", "batchEndOnEmpty : Bool", "batchEndOnLast : Bool", "batchEndApplied : Bool",
 		"jumpGuard : String", "skipBelow : String", "nextOffsetPlus : Int", "readerNextOffsetPlus : Int",
 		"emptyWhenHwmEqOffset : Bool", "closeStoresOffset : Bool", "oorSeeksConn : Bool",
+		"firstOffsetConst : Int", "lastOffsetConst : Int", "initResolve : String", "initSeeksResolved : Bool",
+		"runResetsAttempt : Bool", "runErrcountInc : Bool", "loopBranches : String", "decoderText : String",
 	} {
 		b.WriteString("  " + fld + "\n")
 	}
@@ -685,6 +1380,14 @@ func (f *decFacts) lean() string {
 		"emptyWhenHwmEqOffset := " + strconv.FormatBool(f.emptyWhenHwmEqOffset),
 		"closeStoresOffset := " + strconv.FormatBool(f.closeStoresOffset),
 		"oorSeeksConn := " + strconv.FormatBool(f.oorSeeksConn),
+		"firstOffsetConst := " + decLeanInt(f.firstOffsetConst),
+		"lastOffsetConst := " + decLeanInt(f.lastOffsetConst),
+		"initResolve := " + decLeanString(f.initResolve),
+		"initSeeksResolved := " + strconv.FormatBool(f.initSeeksResolved),
+		"runResetsAttempt := " + strconv.FormatBool(f.runResetsAttempt),
+		"runErrcountInc := " + strconv.FormatBool(f.runErrcountInc),
+		"loopBranches := " + decLeanString(f.loopBranches),
+		"decoderText := " + decLeanString(f.decoderText),
 	}
 	b.WriteString("  { " + strings.Join(vals, ",\n    ") + " }\n\n")
 	b.WriteString("end KV.Gen\n")
